@@ -27,7 +27,7 @@ func init() {
 	Register(&Scenario{
 		Name:  "receipts",
 		Props: []string{"C18"},
-		Plan:  simple(12000, 800000),
+		Plan:  simple(60000, 800000),
 		Run:   runReceipts,
 		Real:  []string{"smpp34.ExtractDeliveryReceipt", "smgp30.ExtractDeliveryReceipt", "cmpp.SubPduDeliveryContent.IEncode / IDecode", "IEncode / IDecode / dispatch of SubmitSmResp, DeliverSm, smgp30.SubmitResp, smgp30.Deliver, cmpp20.PduSubmitResp, cmpp20.PduDeliver", "codec framers"},
 		Stub:  []string{"SMSC receipt generator (key order, subset, spelling, values)", "link carrying responses and receipts in a tape-chosen order", "ESME correlation table"},
